@@ -187,9 +187,17 @@ func getFixture(n int) (*fixture, error) {
 	// after the other because each is shown what the earlier ones did)
 	_, err = rt.A.CreateContainer(context.Background(), &api.CreateContainerRequest{Pod: &api.PodSandbox{Id: "p"}, Container: &api.Container{Id: ex.id.self}})
 	f.execs.Delete(ex.id.self)
-	if err != nil || fmt.Sprint(ex.invoked) != "[0 1 2 3 4]" {
+	inOrder := err == nil && len(ex.invoked) == poolSize
+	for k := 1; inOrder && k < len(ex.invoked); k++ {
+		// index order between different indices; equal indices in any order (judge follows
+		// the observed order per request)
+		if spec.idx[ex.invoked[k-1]] > spec.idx[ex.invoked[k]] {
+			inOrder = false
+		}
+	}
+	if !inOrder {
 		fixtureOrderBad[n] = true
-		return nil, fmt.Errorf("fixture %d: invocation order %v (err %v) is not pool order", n, ex.invoked, err)
+		return nil, fmt.Errorf("fixture %d: invocation order %v (err %v) is not index order", n, ex.invoked, err)
 	}
 	fixtures[n] = f
 	return f, nil
